@@ -283,6 +283,7 @@ func NoPanic(label string, f func()) (ok bool) {
 		}
 	}()
 	f()
+	Assert(true, label)
 	return true
 }
 
